@@ -152,6 +152,10 @@ func c16World(t *testing.T, r *simcore.Run) any {
 	}
 	second := tp.Bool(1, 2, "second-round")
 	r.SelectsOn = tp.Bool(3, 4, "selects")
+	// callers preempted between the statements of MeasureClockOffsets (its overlap guard)
+	r.YieldsOn = tp.Bool(1, 2, "yields")
+	r.YieldNum, r.YieldDen = 1, 1
+	sameInstant := tp.Bool(1, 3, "same-instant")
 
 	const sentinel = time.Duration(-424242)
 	mkms := func() []measurements.Measurement {
@@ -190,13 +194,20 @@ func c16World(t *testing.T, r *simcore.Run) any {
 		o := &outcome{ms: mkms()}
 		overlaps[i] = o
 		at := time.Duration(tp.Range(0, int64(dl)+int64(time.Millisecond), "overlap-at"))
+		if sameInstant && i == 0 {
+			at = 0 // enters the collector at the instant the first caller does
+			r.Probe("second-caller-at-the-same-instant")
+		}
 		go func() {
 			if r.Sleep(fmt.Sprintf("start:ov%d", i), nil, at).Killed {
 				return
 			}
 			// the attempt uses its own scripted clocks (never started if refused)
 			o.start = time.Now()
-			inProgress := !first.done && !first.start.IsZero()
+			// "in progress" means past the collector's guard: a caller that started at an earlier
+			// instant is (preemption between statements takes no virtual time); one that started
+			// at this very instant may still be in front of it - that pair is judged by the driver
+			inProgress := !first.done && !first.start.IsZero() && o.start.After(first.start)
 			extra := []client.ReferenceClock{}
 			for j := 0; j < n; j++ {
 				extra = append(extra, &c16Clock{r: r, name: fmt.Sprintf("ov%d.%d", i, j), timing: c16Before, off: time.Duration(9000 + j), letGo: &letGo})
@@ -227,13 +238,34 @@ func c16World(t *testing.T, r *simcore.Run) any {
 				return
 			}
 		}
-		c16CheckOutcome(r, "first", first, clocks, dl, sentinel)
 		for _, o := range overlaps {
 			for !o.done {
 				if r.Sleep("drv:waitov", nil, time.Millisecond).Killed {
 					return
 				}
 			}
+		}
+		firstRefused := false
+		for _, o := range overlaps {
+			if !o.start.Equal(first.start) {
+				continue
+			}
+			// two callers at the same instant: whichever passes the guard first keeps the other
+			// out until it returns, and it cannot return at that same instant unless it took no time
+			switch {
+			case first.panicked == nil && o.panicked == nil && first.ret.After(first.start) && o.ret.After(o.start):
+				r.Fail("C16", "overlap/both-accepted", "two collections entered the same collector at %v and neither was refused (they returned after %v and %v)",
+					o.start.Sub(r.Start()), first.ret.Sub(first.start), o.ret.Sub(o.start))
+				return
+			case first.panicked != nil && o.panicked == nil:
+				firstRefused = true
+				r.Probe("same-instant-first-caller-refused")
+			case first.panicked == nil && o.panicked != nil:
+				r.Probe("same-instant-second-caller-refused")
+			}
+		}
+		if !firstRefused {
+			c16CheckOutcome(r, "first", first, clocks, dl, sentinel)
 		}
 		// late clocks may still be running; the result slice must stay untouched
 		if r.Sleep("drv:settle", nil, 6*time.Second).Killed {
